@@ -108,7 +108,8 @@ def main():
             run.finish('footprint extraction failed')
             return
         paths = [r for r in res if r.status == 'ok']
-        bad = [r for r in res if r.status not in ('ok', 'infeasible')]
+        xchan = [r for r in res if r.status == 'shared_recv']
+        bad = [r for r in res if r.status not in ('ok', 'infeasible', 'shared_recv')]
         run.obligation('every path of one invocation runs to completion (%d paths)' % len(paths), 'unsat' if not bad else 'sat', 'unsat', 0.0, statuses=dict(collections.Counter(r.status for r in res)))
         if bad:
             run.inconclusive.append('invocation path ends with %s: %s' % (bad[0].status, str(bad[0].info)[:200]))
@@ -159,10 +160,11 @@ def main():
         run.extra['second_invocation_pairs'] = n2
         run.obligation('shared writes of one invocation: every one is ordered against every access of another invocation (%d candidate pairs, %d with a preceding invocation)' % (nq, n2), 'unsat' if not races else 'sat', 'unsat', 0.0)
         run.samples = run.extra['shared_accesses'][:6] or [{'note': 'no shared access'}]
-        if (leaks or dead) and not races:
-            what = ('a path of one invocation ends with blocking state %s still taken' % blocking(leaks[0].state)) if leaks else str(dead[0].info)
+        run.obligation('no invocation takes its result from a channel shared with the other invocations', 'unsat' if not xchan else 'sat', 'unsat', 0.0)
+        if (leaks or dead or xchan) and not races:
+            what = str(xchan[0].info) if xchan else ('a path of one invocation ends with blocking state %s still taken' % blocking(leaks[0].state)) if leaks else str(dead[0].info)
             try:
-                failed, panicked, out = driver.replay_native('server', 'server', ['c13_native.go'], 'VerifHarness_C13_Native', {}, timeout=900, race=True)
+                failed, panicked, out = driver.replay_native('server', 'server', ['c13_native.go', 'deploy_native.go'], 'VerifHarness_C13_Native', {}, timeout=900, race=True)
             except Exception as x:  # noqa
                 failed, panicked, out = [], False, repr(x)
                 run.inconclusive.append('native replay failed to run: %r' % (x,))
@@ -174,7 +176,7 @@ def main():
         if races:
             w, b = races[0]
             try:
-                failed, panicked, out = driver.replay_native('server', 'server', ['c13_native.go'], 'VerifHarness_C13_Native', {}, timeout=1500, race=True)
+                failed, panicked, out = driver.replay_native('server', 'server', ['c13_native.go', 'deploy_native.go'], 'VerifHarness_C13_Native', {}, timeout=1500, race=True)
             except Exception as x:  # noqa
                 failed, panicked, out = [], False, repr(x)
                 run.inconclusive.append('native replay failed to run: %r' % (x,))
